@@ -103,7 +103,8 @@ class Gen:
             s = r.choice(others)
             box = self.sel[s]
             n = self.sizes.get(box, 0) if box else 0
-        if kind == "select" or (box is None and kind not in ("append", "deliver", "wait", "restart")):
+        NOSEL = ("append", "deliver", "wait", "restart", "gc", "create", "delete", "rename", "subscribe", "unsubscribe", "list", "lsub", "status")
+        if kind == "select" or (box is None and kind not in NOSEL):
             name = r.choice(self.names)
             self.sel[s] = name
             ex = r.random() < p.get("examine_p", 0.15)
@@ -166,6 +167,86 @@ class Gen:
             return {"actor": "life", "op": "restart", "kind": r.choice(("cancel", "expire"))}
         if kind == "gc":
             return {"actor": "driver", "op": "gc"}
+        if kind in ("create", "delete", "rename", "subscribe", "unsubscribe", "list", "lsub", "status"):
+            return self.gen_ns(kind, s)
+        raise ValueError(kind)
+
+    # -- namespace ops over a small name alphabet
+    def ns_name(self, existing=None):
+        r = self.r
+        alpha = self.p.get("name_alphabet") or ["a", "b", "a b", "x.y", "p+q", "[z]", "Drafts", "Junk"]
+        if existing is True and self.names:
+            return r.choice(self.names)
+        depth = r.choice((1, 1, 2, 2, 3))
+        if r.random() < 0.5 and self.names:
+            base = r.choice(self.names)
+            if base.lower() != "inbox" and base.count("/") < 2:
+                return base + "/" + r.choice(alpha[:6])
+        return "/".join(r.choice(alpha[:6]) for _ in range(depth))
+
+    def gen_ns(self, kind, s):
+        r = self.r
+        if kind == "create":
+            name = self.ns_name()
+            if r.random() < 0.1:
+                name = r.choice(("INBOX", "inbox", "InBoX", "123", "a/", "/a"))
+            parts = name.strip("/").split("/")
+            for j in range(1, len(parts) + 1):
+                pn = "/".join(parts[:j])
+                if pn and pn not in self.names and pn.lower() != "inbox" and not pn.isdigit():
+                    self.names.append(pn)
+            return {"s": s, "op": "create", "name": name}
+        if kind == "delete":
+            name = self.ns_name(existing=r.random() < 0.85)
+            if r.random() < 0.08:
+                name = r.choice(("INBOX", "inbox", "nosuch"))
+            if name in self.names and name.lower() != "inbox" and not any(n.startswith(name + "/") for n in self.names):
+                self.names.remove(name)
+                for x in self.sids:
+                    if self.sel[x] == name:
+                        self.sel[x] = None
+            return {"s": s, "op": "delete", "name": name}
+        if kind == "rename":
+            old = self.ns_name(existing=r.random() < 0.85)
+            new = self.ns_name()
+            x = r.random()
+            if x < 0.08:
+                new = self.ns_name(existing=True)  # onto existing
+            elif x < 0.14:
+                new = old + "/" + "sub"  # into own subtree
+            elif x < 0.2:
+                old = r.choice(("INBOX", "inbox"))
+            if old in self.names and new not in self.names and old.lower() != "inbox" and not new.startswith(old + "/"):
+                ren = [n for n in self.names if n == old or n.startswith(old + "/")]
+                for n in ren:
+                    self.names.remove(n)
+                    self.names.append(new + n[len(old):])
+                parts = new.split("/")
+                for j in range(1, len(parts)):
+                    pn = "/".join(parts[:j])
+                    if pn not in self.names:
+                        self.names.append(pn)
+                for x2 in self.sids:
+                    if self.sel[x2] in ren:
+                        self.sel[x2] = None
+            elif old.lower() == "inbox" and new not in self.names:
+                self.names.append(new)
+            return {"s": s, "op": "rename", "name": old, "to": new}
+        if kind in ("subscribe", "unsubscribe"):
+            name = self.ns_name(existing=r.random() < 0.85)
+            return {"s": s, "op": kind, "name": name}
+        if kind in ("list", "lsub"):
+            ref = r.choice(("", "", "", "a/", "a", "x.y/"))
+            pat = r.choice(("*", "%", "a/%", "a/*", "%/%", "*b", "inbox", "INBOX", "InBox", "a b", "x.y", "[z]", "*/*", "a*", "%/b", "Dr%"))
+            op = {"s": s, "op": kind, "ref": ref, "pat": pat}
+            if kind == "list" and r.random() < 0.15:
+                op["ext"] = r.choice((
+                    '(SUBSCRIBED) "" "*"', '(SUBSCRIBED RECURSIVEMATCH) "" "%"', '"" ("a/*" "b*")', '"" "*" RETURN (CHILDREN SUBSCRIBED)',
+                    '"" "%" RETURN (STATUS (MESSAGES UIDNEXT UNSEEN))', '(SPECIAL-USE) "" "*"', '(REMOTE) "" "*"',
+                ))
+            return op
+        if kind == "status":
+            return {"s": s, "op": "status", "mbox": self.ns_name(existing=r.random() < 0.9)}
         raise ValueError(kind)
 
 
